@@ -17,7 +17,7 @@ def AfeEntry.hasId (id : Nat) : AfeEntry → Bool
   | .el e => e.id == id
 
 /-- "insert a marker at the end of the list of active formatting elements" -/
-def State.pushMarker (s : State) : State := { s with afe := .marker :: s.afe }
+def Tree.pushMarker (s : Tree) : Tree := { s with afe := .marker :: s.afe }
 
 /-- "clear the list of active formatting elements up to the last marker" -/
 def clearToMarker : List AfeEntry → List AfeEntry
@@ -25,11 +25,11 @@ def clearToMarker : List AfeEntry → List AfeEntry
   | .marker :: es => es
   | .el _ :: es => clearToMarker es
 
-def State.clearAfeToMarker (s : State) : State := { s with afe := clearToMarker s.afe }
+def Tree.clearAfeToMarker (s : Tree) : Tree := { s with afe := clearToMarker s.afe }
 
-def State.inAfe (s : State) (id : Nat) : Bool := s.afe.any (AfeEntry.hasId id)
+def Tree.inAfe (s : Tree) (id : Nat) : Bool := s.afe.any (AfeEntry.hasId id)
 
-def State.removeFromAfe (s : State) (id : Nat) : State :=
+def Tree.removeFromAfe (s : Tree) (id : Nat) : Tree :=
   { s with afe := s.afe.filter (fun e => !AfeEntry.hasId id e) }
 
 /-- the entries after the last marker (most recent first) -/
@@ -49,22 +49,22 @@ def noahRemove (e : El) (afe : List AfeEntry) : List AfeEntry :=
   else afe
 
 /-- "push onto the list of active formatting elements" the current node -/
-def State.pushFormatting (s : State) : State :=
+def Tree.pushFormatting (s : Tree) : Tree :=
   match s.stack with
   | e :: _ => { s with afe := .el e :: noahRemove e s.afe }
   | [] => s
 
 /-- "insert an HTML element for the token. Push onto the list of active formatting elements that element." -/
-def State.insertFormatting (s : State) (n : Name) (a : Attrs) : State := (s.insertHtml n a).pushFormatting
+def Tree.insertFormatting (s : Tree) (n : Name) (a : Attrs) : Tree := (s.insertHtml n a).pushFormatting
 
 /-- entry that needs no reconstruction: a marker or an element that is on the stack -/
-def State.markerOrOpen (s : State) : AfeEntry → Bool
+def Tree.markerOrOpen (s : Tree) : AfeEntry → Bool
   | .marker => true
   | .el e => s.onStack e.id
 
 /-- steps 8–10 ("create") for the entries to re-open, earliest first; returns the new entries
 (most recent first) -/
-def reconstructCreate (s : State) : List AfeEntry → State × List AfeEntry
+def reconstructCreate (s : Tree) : List AfeEntry → Tree × List AfeEntry
   | [] => (s, [])
   | .marker :: es => reconstructCreate s es   -- not reachable: the span holds no marker
   | .el e :: es =>
@@ -74,7 +74,7 @@ def reconstructCreate (s : State) : List AfeEntry → State × List AfeEntry
     (r.1, r.2 ++ [.el ne])
 
 /-- §13.2.4.3 "reconstruct the active formatting elements" -/
-def State.reconstructAfe (s : State) : State :=
+def Tree.reconstructAfe (s : Tree) : Tree :=
   -- steps 1–7: the entries to re-open are the maximal run of most recent entries that are
   -- neither markers nor open
   let todo := s.afe.takeWhile (fun e => !s.markerOrOpen e)
@@ -101,7 +101,7 @@ def findEndTarget (d : Dev) (n : Name) : List El → Option Nat
 /-- "any other end tag": generate implied end tags except for `n` elements, then pop up to and
 including the matching node (the implied pops are a prefix of that range, so the result is the
 stack below the node); a special element first: ignore -/
-def State.anyOtherEndTag (c : Cfg) (s : State) (n : Name) : State :=
+def Tree.anyOtherEndTag (c : Cfg) (s : Tree) (n : Name) : Tree :=
   match findEndTarget c.dev n s.stack with
   | some i => { s with stack := s.stack.drop (i + 1) }
   | none => s
@@ -126,7 +126,7 @@ def splitFurthest (d : Dev) (above : List El) : Option (List El × El × List El
 
 /-- result of the inner loop (step 4.13) -/
 structure InnerRes where
-  st : State
+  st : Tree
   /-- what remains between furthest block and formatting element, nearest the furthest block first -/
   between : List El
   /-- identity of the element the bookmark follows, if it was moved (step 4.13.8) -/
@@ -135,7 +135,7 @@ structure InnerRes where
 /-- inner loop, over the nodes between furthest block and formatting element, nearest the furthest
 block first; `k` = inner loop counter after the increment of step 4.13.1; `lastIsFb` = "last node is
 the furthest block" -/
-def aaaInner (s : State) : Nat → Bool → List El → InnerRes
+def aaaInner (s : Tree) : Nat → Bool → List El → InnerRes
   | _, _, [] => ⟨s, [], none⟩
   | k, lastIsFb, node :: rest =>
     if k > 3 || !s.inAfe node.id then
@@ -144,7 +144,7 @@ def aaaInner (s : State) : Nat → Bool → List El → InnerRes
     else
       -- 4.13.6: replace node by a new element, in the list and in the stack
       let ne : El := ⟨s.nextId, .html, node.name, node.attrs⟩
-      let s1 : State :=
+      let s1 : Tree :=
         { s with nextId := s.nextId + 1,
                  afe := s.afe.map (fun x => if AfeEntry.hasId node.id x then .el ne else x) }
       let r := aaaInner s1 (k + 1) false rest
@@ -157,7 +157,7 @@ def insertAfterId (x : AfeEntry) (id : Nat) : List AfeEntry → List AfeEntry
   | e :: es => if AfeEntry.hasId id e then x :: e :: es else e :: insertAfterId x id es
 
 /-- one iteration of the outer loop; `none` = "return" -/
-def aaaIter (c : Cfg) (s : State) (subject : Name) : State × Bool :=
+def aaaIter (c : Cfg) (s : Tree) (subject : Name) : Tree × Bool :=
   match findFormatting subject s.afe with
   | none => (s.anyOtherEndTag c subject, false)                     -- 4.3
   | some fe =>
@@ -174,7 +174,7 @@ def aaaIter (c : Cfg) (s : State) (subject : Name) : State × Bool :=
           let r := aaaInner s 1 true between                          -- 4.13
           -- 4.15 create an element for the formatting element's token
           let nf : El := ⟨r.st.nextId, .html, fe.name, fe.attrs⟩
-          let s2 : State := { r.st with nextId := r.st.nextId + 1 }
+          let s2 : Tree := { r.st with nextId := r.st.nextId + 1 }
           -- 4.18 remove the formatting element from the list, insert the new one at the bookmark
           let afe' :=
             match r.bookmark with
@@ -184,19 +184,61 @@ def aaaIter (c : Cfg) (s : State) (subject : Name) : State × Bool :=
           ({ s2 with afe := afe', stack := top ++ nf :: fb :: (r.between ++ below) }, true)
 
 /-- outer loop, at most `n` iterations -/
-def aaaLoop (c : Cfg) (subject : Name) : Nat → State → State
+def aaaLoop (c : Cfg) (subject : Name) : Nat → Tree → Tree
   | 0, s => s
   | n + 1, s =>
     let r := aaaIter c s subject
     if r.2 then aaaLoop c subject n r.1 else r.1
 
 /-- §13.2.6.4.7 "adoption agency algorithm" for a token named `subject` -/
-def State.adoptionAgency (c : Cfg) (s : State) (subject : Name) : State :=
+def Tree.adoptionAgency (c : Cfg) (s : Tree) (subject : Name) : Tree :=
   match s.stack with
   | cur :: _ =>
     -- step 2
     if cur.isHtml subject && !s.inAfe cur.id then s.pop
     else aaaLoop c subject 8 s
   | [] => aaaLoop c subject 8 s
+
+/-! ## The same operations on the parser state
+
+Every stack / list operation acts on `State.tree` only (`State.onTree`), so the insertion mode, the
+flags and the pointers are untouched *by construction*. -/
+
+abbrev State.current (s : State) : Option El := s.tree.current
+abbrev State.currentIs (s : State) (n : Name) : Bool := s.tree.currentIs n
+abbrev State.currentIsIn (s : State) (l : List Name) : Bool := s.tree.currentIsIn l
+abbrev State.onStack (s : State) (id : Nat) : Bool := s.tree.onStack id
+abbrev State.hasOnStack (s : State) (n : Name) : Bool := s.tree.hasOnStack n
+abbrev State.inAfe (s : State) (id : Nat) : Bool := s.tree.inAfe id
+abbrev State.inScope (c : Cfg) (s : State) (n : Name) : Bool := s.tree.inScope c n
+abbrev State.inScopeIn (c : Cfg) (s : State) (l : List Name) : Bool := s.tree.inScopeIn c l
+abbrev State.inScopeId (c : Cfg) (s : State) (id : Nat) : Bool := s.tree.inScopeId c id
+abbrev State.inListItemScope (c : Cfg) (s : State) (n : Name) : Bool := s.tree.inListItemScope c n
+abbrev State.inButtonScope (c : Cfg) (s : State) (n : Name) : Bool := s.tree.inButtonScope c n
+abbrev State.inTableScope (s : State) (n : Name) : Bool := s.tree.inTableScope n
+abbrev State.inTableScopeIn (s : State) (l : List Name) : Bool := s.tree.inTableScopeIn l
+abbrev State.inSelectScope (s : State) (n : Name) : Bool := s.tree.inSelectScope n
+
+abbrev State.pushNew (s : State) (ns : Ns) (n : Name) (a : Attrs) : State := s.onTree (·.pushNew ns n a)
+abbrev State.insertHtml (s : State) (n : Name) (a : Attrs := {}) : State := s.onTree (·.insertHtml n a)
+abbrev State.pop (s : State) : State := s.onTree (·.pop)
+abbrev State.insertAndPop (s : State) (n : Name) (a : Attrs := {}) : State := s.onTree (·.insertAndPop n a)
+abbrev State.removeFromStack (s : State) (id : Nat) : State := s.onTree (·.removeFromStack id)
+abbrev State.popUntilNamed (s : State) (n : Name) : State := s.onTree (·.popUntilNamed n)
+abbrev State.popUntilIn (s : State) (l : List Name) : State := s.onTree (·.popUntilIn l)
+abbrev State.clearToTableContext (s : State) : State := s.onTree (·.clearToTableContext)
+abbrev State.clearToTableBodyContext (s : State) : State := s.onTree (·.clearToTableBodyContext)
+abbrev State.clearToTableRowContext (s : State) : State := s.onTree (·.clearToTableRowContext)
+abbrev State.genImplied (s : State) (except : Option Name := none) : State := s.onTree (·.genImplied except)
+abbrev State.genImpliedThoroughly (s : State) : State := s.onTree (·.genImpliedThoroughly)
+abbrev State.closeP (s : State) : State := s.onTree (·.closeP)
+abbrev State.closePInButtonScope (c : Cfg) (s : State) : State := s.onTree (·.closePInButtonScope c)
+abbrev State.pushMarker (s : State) : State := s.onTree (·.pushMarker)
+abbrev State.clearAfeToMarker (s : State) : State := s.onTree (·.clearAfeToMarker)
+abbrev State.removeFromAfe (s : State) (id : Nat) : State := s.onTree (·.removeFromAfe id)
+abbrev State.insertFormatting (s : State) (n : Name) (a : Attrs) : State := s.onTree (·.insertFormatting n a)
+abbrev State.reconstructAfe (s : State) : State := s.onTree (·.reconstructAfe)
+abbrev State.anyOtherEndTag (c : Cfg) (s : State) (n : Name) : State := s.onTree (·.anyOtherEndTag c n)
+abbrev State.adoptionAgency (c : Cfg) (s : State) (subject : Name) : State := s.onTree (·.adoptionAgency c subject)
 
 end LolHtml.Spec.TreeBuilder
